@@ -285,3 +285,5 @@ def run(ctx):
                    "C14-trees")
     run_hypothesis(ctx, bc.flow_cases(), oracle, 2 if q else 50, "C14-flows")
     run_hypothesis(ctx, dist_cases(), oracle, 5 if q else 120, "C14-dists")
+    # models as returned by fit_to_data(return_best=True): what users actually jit, vmap and serialise
+    run_hypothesis(ctx, dist_cases().map(lambda c: dict(c, trained=True)), oracle, 4 if q else 60, "C14-trained-dists")
